@@ -24,6 +24,8 @@ pub struct Repo {
     pub diff_sections: Option<Vec<String>>,
     pub globs: Vec<String>,
     pub list_only: bool,
+    /// Only run through the real CLI (its subject lives in the binary's `main`).
+    pub cli_only: bool,
 }
 
 fn rules_file(tag: &str) -> String {
@@ -51,6 +53,7 @@ pub fn catalogue(kit: &c18::Kit, nonce: &str) -> Vec<Repo> {
             diff_sections: None,
             globs: vec![],
             list_only: false,
+            cli_only: false,
         },
         Repo {
             name: "R2-affects-diff-three-sections",
@@ -58,6 +61,7 @@ pub fn catalogue(kit: &c18::Kit, nonce: &str) -> Vec<Repo> {
             diff_sections: Some(diff_of(&[("x.py", &affects_x), ("d/y.py", &affects_y), ("z.md", &md)])),
             globs: vec![],
             list_only: false,
+            cli_only: false,
         },
         Repo {
             name: "R3-diff-plus-glob",
@@ -65,6 +69,7 @@ pub fn catalogue(kit: &c18::Kit, nonce: &str) -> Vec<Repo> {
             diff_sections: Some(diff_of(&[("x.py", &affects_x), ("z.md", &md)])),
             globs: vec!["**/*.py".into()],
             list_only: false,
+            cli_only: false,
         },
         Repo {
             name: "R4-lua-ai-and-sync-rules",
@@ -72,6 +77,7 @@ pub fn catalogue(kit: &c18::Kit, nonce: &str) -> Vec<Repo> {
             diff_sections: None,
             globs: vec![],
             list_only: false,
+            cli_only: false,
         },
         Repo {
             name: "R5-list-with-diff",
@@ -79,6 +85,7 @@ pub fn catalogue(kit: &c18::Kit, nonce: &str) -> Vec<Repo> {
             diff_sections: Some(diff_of(&[("d/y.py", &affects_y), ("z.md", &md)])),
             globs: vec!["**".into()],
             list_only: true,
+            cli_only: false,
         },
         {
             let p = "# <block name=\"shared\">\np = 1\n# </block>\n".to_string();
@@ -90,6 +97,7 @@ pub fn catalogue(kit: &c18::Kit, nonce: &str) -> Vec<Repo> {
                 diff_sections: Some(diff_of(&[("p.py", &p), ("q.py", &q), ("r.py", &r)])),
                 globs: vec![],
                 list_only: false,
+                cli_only: false,
             }
         },
         Repo {
@@ -99,6 +107,7 @@ pub fn catalogue(kit: &c18::Kit, nonce: &str) -> Vec<Repo> {
             diff_sections: None,
             globs: vec![],
             list_only: false,
+            cli_only: false,
         },
         Repo {
             name: "R6-one-malformed-rule-among-violations",
@@ -106,6 +115,30 @@ pub fn catalogue(kit: &c18::Kit, nonce: &str) -> Vec<Repo> {
             diff_sections: None,
             globs: vec![],
             list_only: false,
+            cli_only: false,
+        },
+        {
+            // A type change (symbolic link → regular file): git prints a deleted-file section and a
+            // new-file section for the same path; whatever their order, the path is in the diff.
+            let x = "# <block name=\"t\" keep-sorted>\nb = 1\na = 2\n# </block>\n".to_string();
+            let y = "# <block name=\"u\" keep-unique severity=\"warning\">\nd = 1\nd = 1\n# </block>\n".to_string();
+            let deleted = "diff --git a/x.py b/x.py\ndeleted file mode 120000\nindex 1de5659..0000000\n--- a/x.py\n+++ /dev/null\n@@ -1 +0,0 @@\n-target.py\n\\ No newline at end of file\n".to_string();
+            Repo {
+                name: "R9-type-change-deleted-and-created-sections",
+                files: vec![("x.py".into(), x.clone()), ("y.py".into(), y.clone())],
+                diff_sections: Some(vec![deleted, cli::new_file_diff("x.py", &x), cli::new_file_diff("y.py", &y)]),
+                globs: vec![],
+                list_only: false,
+                cli_only: false,
+            }
+        },
+        {
+            // One file with an error among files whose violations are warnings only: the status is
+            // decided in the binary's `main`, so this repository is run through the CLI only.
+            let warn = |i: usize| (format!("w{i}.py"), format!("# <block name=\"w{i}\" keep-unique severity=\"warning\">\nd = {i}\nd = {i}\n# </block>\n"));
+            let mut files = vec![("e.py".to_string(), "# <block name=\"e\" keep-sorted>\nb = 1\na = 2\n# </block>\n".to_string())];
+            files.extend((1..=5).map(warn));
+            Repo { name: "R10-one-error-file-among-warning-only-files", files, diff_sections: None, globs: vec![], list_only: false, cli_only: true }
         },
     ]
 }
@@ -258,6 +291,20 @@ fn cli_phase(cfg: &Cfg, sink: &Sink) -> (u64, u64) {
                 sink.fail(format!("C20:verdict-depends-on-cwd:{}", repo.name), format!("{} from {cwd:?}:\n{got}\n--- from the root ---\n{reference}", repo.name), input.clone());
             }
         }
+        // Pinned to one core (`taskset -c 0`): the number of available cores is an input like any
+        // other and has two values here, one core and all of them.
+        {
+            exhaustive += 1;
+            sink.exec();
+            let bin = cfg.bin.display().to_string();
+            let mut pinned_args: Vec<&str> = vec!["-c", "0", &bin];
+            pinned_args.extend(args.iter().copied());
+            let got = observe(&cli::blockwatch(std::path::Path::new("/usr/bin/taskset"), &dir.dir, &pinned_args, diff.as_deref(), &env, 30));
+            sink.outcome(format!("cli:one-core:{}", if got == reference { "same" } else { "DIFFERENT" }));
+            if got != reference {
+                sink.fail(format!("C20:verdict-depends-on-core-count:{}", repo.name), format!("{} pinned to one core:\n{got}\n--- on all cores ---\n{reference}", repo.name), input.clone());
+            }
+        }
         // Supplement (sampling): fresh processes, 1 core vs all, 1 vs 16 runtime workers.
         for i in 0..repeats {
             sampled += 1;
@@ -281,13 +328,14 @@ pub fn run(cfg: &Cfg, sink: &Arc<Sink>) -> Report {
         std::env::set_var("BLOCKWATCH_AI_API_URL", &FakeAi::global().url);
         std::env::set_var("BLOCKWATCH_AI_API_KEY", "k");
     }
-    let mut report = Report::new("for each repository of a catalogue (8 repositories of 2–4 files: a directory named like a source file, same block name modified in two files with references to each, rules with mixed severities, cross-file affects in diff mode with 3 diff sections, diff + glob, Lua + AI + sync rules, `list` with diff, one malformed rule among violations) every combination of block-map iteration order × file discovery order × order of the diff's file sections is taken, and for each every schedule of the seams (validator thread bodies, async delivery orders) is executed (E2); the canonical observable (status + sorted diagnostics / listed blocks / error) must be one single value per repository; through the real CLI every directory of each repository is used as cwd (exhaustive) and fresh processes with 1 and 16 runtime workers are repeated (sampling supplement: per-process hash seeds and thread timing are not enumerable); non-trivial = every combination");
+    let mut report = Report::new("for each repository of a catalogue (10 repositories of 2–6 files: a type change whose diff has a deleted-file and a new-file section for one path, one error file among warning-only files (CLI only), a directory named like a source file, same block name modified in two files with references to each, rules with mixed severities, cross-file affects in diff mode with 3 diff sections, diff + glob, Lua + AI + sync rules, `list` with diff, one malformed rule among violations) every combination of block-map iteration order × file discovery order × order of the diff's file sections is taken, and for each every schedule of the seams (validator thread bodies, async delivery orders) is executed (E2); the canonical observable (status + sorted diagnostics / listed blocks / error) must be one single value per repository; through the real CLI every directory of each repository is used as cwd (exhaustive) and fresh processes with 1 and 16 runtime workers are repeated (sampling supplement: per-process hash seeds and thread timing are not enumerable); non-trivial = every combination");
     report.assume("hash maps other than the block map are only looked up or iterated into order-insensitive outputs; the fresh-process repetitions are a labelled sampling pass for them");
-    let reference = Arc::new(Mutex::new(vec![None; 8]));
+    let reference = Arc::new(Mutex::new(vec![None; 10]));
     let schedules = Arc::new(AtomicU64::new(0));
     let thorough = cfg.tier == Tier::Thorough;
     let mut cases = Vec::new();
-    let sizes: [(usize, usize); 8] = [(4, 0), (3, 3), (4, 2), (3, 0), (3, 2), (3, 3), (2, 0), (3, 0)];
+    // (files, diff sections) of the repositories explored through the library, in catalogue order.
+    let sizes: [(usize, usize); 9] = [(4, 0), (3, 3), (4, 2), (3, 0), (3, 2), (3, 3), (2, 0), (3, 0), (2, 3)];
     for (repo, (files, sections)) in sizes.iter().enumerate() {
         let file_perms = permutations(*files).len();
         let diff_perms = permutations(*sections).len().max(1);
@@ -309,7 +357,7 @@ pub fn run(cfg: &Cfg, sink: &Arc<Sink>) -> Report {
     let (r2, s2) = (Arc::clone(&reference), Arc::clone(&schedules));
     report.phase(engine::explore(
         "map order × discovery order × diff-section order × all schedules (library)",
-        &format!("{n} order combinations over 8 repositories, {} for each", if thorough { "every schedule of the seams" } else { "every schedule with ≤3 deviations from the default order" }),
+        &format!("{n} order combinations over 9 repositories, {} for each", if thorough { "every schedule of the seams" } else { "every schedule with ≤3 deviations from the default order" }),
         Grid { cases, check: move |c: &Case, s: &Sink| check_case(c, bound, &r2, &s2, s) },
         sink,
         cfg.threads,
@@ -320,7 +368,7 @@ pub fn run(cfg: &Cfg, sink: &Arc<Sink>) -> Report {
         report.cap("quick: 3 of the file-discovery orders per repository (identity, reverse, a middle permutation) and schedules with ≤3 deviations; thorough: all discovery orders and all schedules");
     }
     let (exhaustive, sampled) = cli_phase(cfg, sink);
-    report.phase(Phase { name: "every cwd through the real CLI".into(), states: exhaustive, transitions: exhaustive, max_depth: 1, exhaustive: true, bound: "every directory of each catalogue repository".into() });
+    report.phase(Phase { name: "every cwd through the real CLI".into(), states: exhaustive, transitions: exhaustive, max_depth: 1, exhaustive: true, bound: "every directory of each catalogue repository, plus one run pinned to one core".into() });
     report.phase(Phase { name: "supplement: fresh processes, 1 vs 16 runtime workers (sampling, labelled)".into(), states: sampled, transitions: sampled, max_depth: 1, exhaustive: false, bound: format!("{} repetitions per repository", cfg.tier.pick(6, 40)) });
     report
 }
@@ -336,7 +384,7 @@ pub fn replay(cfg: &Cfg, input: &Value, sink: &Arc<Sink>) {
         return;
     }
     // Replaying one combination needs the reference of the identity combination first.
-    let reference = Mutex::new(vec![None; 8]);
+    let reference = Mutex::new(vec![None; 10]);
     let schedules = AtomicU64::new(0);
     let repo = input["repo"].as_u64().unwrap_or(0) as usize;
     check_case(&Case { repo, map_order: 0, walk_order: 0, diff_order: 0 }, None, &reference, &schedules, sink);
